@@ -197,7 +197,15 @@ class Module:
 
     def __getattr__(self, key: str) -> Any:
         """Include our namespace-worth of HDL objects in dot-access retrievals"""
+        if key.startswith("__") and key.endswith("__"):
+            # Python's own protocol names. Never ours.
+            return object.__getattribute__(self, key)
         if key.startswith("_"):
+            # Private attributes, including our own during bootstrapping, are regular Python attributes.
+            # (We only get here when there is none of that name.) Objects `add`ed under such a name are in the namespace.
+            ns = self.__dict__.get("namespace", None)
+            if ns is not None and key in ns:
+                return ns[key]
             return object.__getattribute__(self, key)
         ns = self.__getattribute__("namespace")
         if key in ns:
